@@ -270,7 +270,8 @@ whose meaning is defined):
    computes the reading documented at `shift`/`dateInstance`: occurrences exist on the years chrono can
    represent, shifted days are pinned at its extreme dates.
 Refinement is PROVED for EVERY offset between two fixed dates without a year and between two bounds with a year,
-within ±30 000 000 days from a start with a year to a yearless end and ±300 000 days when a bound is Easter; hint
+for a start offset within ±92 000 000 days from a start with a year to a fixed yearless end (any end offset) and
+within ±300 000 days when a bound is a yearless Easter; hint
 soundness within ±92 000 000 days for two fixed yearless dates (±300 000 with Easter; no condition after a start
 with a year) (OH/Props/C01.lean
 `exprDatedPlain`, OH/Props/C02B.lean `exprHintSafe`); beyond that the model is compared with this specification
